@@ -76,7 +76,7 @@ def build_funcs(spec, hook=None, cache=None, declared_sizes=None, ishape_int=Fal
     for k, fn in enumerate(spec["funcs"]):
         ishape = tuple(spec["sizes"][a] for a in fn["internal"])
         body = terms.make_function(fn["name"], list(fn["params"]), len(fn["outs"]), ishape, hook=hook, returns_none=bool(fn.get("none")),
-                                   dict_keys=list(fn["outs"]) if fn.get("picker") else None, one_tuple=bool(fn.get("one_tuple")))
+                                   dict_keys=list(fn["outs"]) if fn.get("picker") else None, one_tuple=bool(fn.get("one_tuple")), list_len=int(fn.get("list_out", 0)))
         kw = {}
         if fn["internal"] and fn.get("ishape_via", "map") == "pipefunc":
             kw["internal_shape"] = ishape if declared_sizes is None else tuple(declared_sizes[a] for a in fn["internal"])
@@ -125,6 +125,8 @@ def ref_map(spec, inputs):
             calls[name] = [args]
             for o, tag in zip(outs, tags):
                 env[o] = None if fn.get("none") else terms.term_array(tag, args, ishape) if internal else f"{tag}({args})"
+                if fn.get("list_out"):
+                    env[o] = [f"{tag}.{k}({args})" for k in range(fn["list_out"])]
             continue
         ext = [a for a in fn["out_axes"] if a not in internal]
         size = {}
